@@ -2,7 +2,7 @@ from check import run_diff_property
 
 CFG = dict(
     streams=[('pass', 120, 1500), ('dbuf', 1500, 30000, 'http2test')],
-    oracle_ops={'pass', 'passtr'},
+    oracle_ops={'pass', 'passtr', 'passwin'},
     http2_ops={'dbuf'},
     rule=("pass: generated requests (9 methods/paths incl. escapes, dot segments, ';' parameters; 7 query shapes incl. ';' and "
           "repeated keys; 5 Host values; 0-8 headers from 19 end-to-end names with repeated / empty / 8 KB / non-ASCII values plus "
@@ -14,6 +14,9 @@ CFG = dict(
           "(same size/piece patterns, with and without Flush) and 1-3 trailers announced fully / only the first name / not at all; ORACLE = the pass-through specification computed with "
           "the rewrite model: method, URI, Host rule, every sent header name's values, the set of other header names, body length + "
           "MD5, and the response status, headers, body length + MD5 and trailers as received by the client. "
+          "passwin: a raw HTTP/2 client receiving 5 KB .. 200 KB under an initial stream window of 0 / 1 / 16384 bytes that it reopens "
+          "with WINDOW_UPDATE, with SETTINGS INITIAL_WINDOW_SIZE changes, or alternately, on a half-closed (GET) or open (POST) stream: "
+          "status, completion, length and MD5 of what arrived. "
           "dbuf: 3-33 operations on dataBuffer / pipe (writes of boundary sizes around the five chunk classes, reads of any size, "
           "Len, CloseWithError, BreakWithError) with 11 `expected` hints, comparing every result and the final chunk structure. "
           "non-trivial = a pass scenario with a body or several requests, a dbuf sequence with >= 4 operations"),
@@ -22,7 +25,7 @@ CFG = dict(
         "request trailers are not forwarded by httputil.ReverseProxy (Request.Clone copies the announced trailer keys before the body is read); the property does not list them for the request direction and the oracle pins the observed behaviour",
         "the Go HTTP/2 client transport cannot send padded DATA frames; padding arithmetic is covered by C12/C19",
     ],
-    nontrivial=lambda o, i: o.startswith('passtr') or (o.startswith('pass ') and (';' in o.split('reqs=')[1] or '.0.' not in o)) or (o.startswith('dbuf') and o.count(';') >= 3),
+    nontrivial=lambda o, i: o.startswith(('passtr', 'passwin')) or (o.startswith('pass ') and (';' in o.split('reqs=')[1] or '.0.' not in o)) or (o.startswith('dbuf') and o.count(';') >= 3),
 )
 
 
